@@ -58,6 +58,8 @@ pub(crate) struct ConnState {
     pub rng: Rng,
     pub chaos: Chaos,
     pub ends_alive: u8,
+    /// SO_LINGER {on, 0} set on endpoint e: its close() aborts instead of delivering what is queued
+    pub linger0: [bool; 2],
 }
 
 #[derive(Clone, Debug)]
@@ -359,10 +361,15 @@ impl MemEnd {
                 c.pipes[1 - end].rwaker = None;
                 c.pipes[end].writer_gone = true;
                 c.pipes[end].wwaker = None;
+                // SO_LINGER 0: close() throws away what the peer's stack has not got yet and sends RST, unless both
+                // directions have already been closed in an orderly way (tcp_disconnect: no reset from LAST_ACK/CLOSING
+                // with nothing left to send, nor from TIME_WAIT)
+                let abort = c.linger0[end]
+                    && !(c.pipes[end].fin_queued && c.pipes[end].inflight.is_empty() && c.pipes[1 - end].fin_arrived);
                 if c.ends_alive == 0 {
                     remove = true;
                 } else if !c.rst {
-                    if unread {
+                    if unread || abort {
                         reset = true;
                     } else if !c.pipes[end].fin_queued {
                         let p = &mut c.pipes[end];
@@ -389,6 +396,14 @@ impl MemEnd {
             wk.wake();
         }
     }
+}
+
+pub fn set_linger0(conn: u64, end: usize, on: bool) {
+    let mut w = world();
+    if let Some(c) = w.conns.get_mut(&conn) {
+        c.linger0[end] = on;
+    }
+    w.count("tcp_set_linger");
 }
 
 /// Abort the connection behind `s` (harness: SO_LINGER 0 + close)
@@ -600,6 +615,7 @@ pub(crate) async fn connect(spec: ConnectSpec) -> io::Result<crate::net::TcpStre
             rng,
             chaos,
             ends_alive: 2,
+            linger0: [false; 2],
         };
         w.conns.insert(id, cs);
         (
